@@ -450,7 +450,7 @@ def object_getattr(E, obj, name, node):
         # (virtual) base method when one is registered
         for (owner, mname), basefn in getattr(E, 'virtual', {}).items():
             if mname == name and all(issubclass(K, owner) for K in cands):
-                return I.SBound(basefn, obj, owner)
+                return I.SBound(basefn, obj, owner if isinstance(owner, type) else None)
     if len(groups) > 1 and E.merge:
         # merge mode: class-dependent constants become an ite over the class id
         c = E.classes.cls_of(oid)
@@ -720,6 +720,8 @@ def getitem(E, obj, idx, node=None):
     if k == 0:
         kt = E.lift(idx)
         E.axiom(vals.key_axiom(kt))
+        if E.path is not None:
+            E.path.key_lookup(t, kt)
         r = z3.Select(V.dm(t), vals.KeyId(kt))
         E.fail_if(r == V.VAbsent, KeyError, 'dict key')
         return I.T(r)
@@ -806,6 +808,8 @@ def contains_symbolic(E, cont, item, node):
     it = E.lift(item)
     if E.must(isd):
         E.axiom(vals.key_axiom(it))
+        if E.path is not None:
+            E.path.key_lookup(t, it)
         return z3.Select(V.dm(t), vals.KeyId(it)) != V.VAbsent
     if E.must(isset):
         E.axiom(vals.key_axiom(it))
@@ -1495,7 +1499,10 @@ def install(E):
             q = args[0]
             b = E.truth(q.body)
             b = z3.BoolVal(b) if isinstance(b, bool) else b
-            return E.bool_sv(E.path.quant(z3.ForAll([q.i], z3.Implies(z3.And(q.i >= 0, q.i < q.n), b)), q.n))
+            qb = E.path.quant(z3.ForAll([q.i], z3.Implies(z3.And(q.i >= 0, q.i < q.n), b)), q.n)
+            if q.dsrc is not None:
+                E.path.key_quant(qb, q.i, b, q.dsrc)
+            return E.bool_sv(qb)
         items = E.iter_items(args[0], None)
         if items is None:
             raise I.Unsupported('all() of symbolic iterable')
@@ -1661,6 +1668,15 @@ def call_method(E, recv, name, args, kwargs):
     if isinstance(recv, I.STuple):
         raise I.Unsupported('tuple method %s' % name)
     t = recv.t
+    if name == 'get' and args:
+        E.fail_if(z3.Not(V.is_VDict(t)), AttributeError, 'get')
+        kt = E.lift(args[0])
+        E.axiom(vals.key_axiom(kt))
+        if E.path is not None:
+            E.path.key_lookup(t, kt)
+        r = z3.Select(V.dm(t), vals.KeyId(kt))
+        dflt = E.lift(args[1]) if len(args) > 1 else V.VNone
+        return I.T(z3.If(r == V.VAbsent, dflt, r))
     if name in ('items', 'keys', 'values') and not args:
         E.fail_if(z3.Not(V.is_VDict(t)), AttributeError, name)
         return I.SItems(t, name)
